@@ -7,6 +7,7 @@
        m                           moveRequestsToSendLocked
        f:<i> / f:u<k>              finishCall for call i / for the never allocated query ID 5+k
        c:<i>                       cancelCallImpl
+       w:<i>                       ClientImpl.doWait with a cancelled context, then PutResponse (Response recycled)
        x:<good>                    dropClientConn + continueRunningImpl(good)   (massCancelRequestsLocked)
        k  u  h                     close / setClientConn / shutdown
    mon <event> ...               the monitor [accepts]:  c:<q>:<b>:<fail>:<tmo>  s:<q>:<b>  x:<q>  d:<q>:<kind>:<b>  kc  ks
@@ -38,6 +39,9 @@ let run_pc (ops : string list) : string =
   let dls : (int * string) list ref = ref [] in
   let ncalls = ref 0 in
   let st = ref cs_init in
+  let inchan : int list ref = ref [] in      (* calls whose result sits in singleResult *)
+  let returned : int list ref = ref [] in    (* calls whose doWait returned (Response recycled) *)
+  let started : int list ref = ref [] in
   let idx_of q = try string_of_int (fst (List.find (fun (_, q') -> q' = q) !qids)) with Not_found -> "?" ^ dec_of_n q in
   let qid_of i = List.assoc i !qids in
   let expired q =
@@ -45,12 +49,13 @@ let run_pc (ops : string list) : string =
   let dump res dlv =
     let calls = isort (List.map (fun (q, c) -> (int_of_string (idx_of q), c.c_sent)) !st.cs_calls) in
     let wq = List.sort compare (List.map (function WReq q -> "r" ^ idx_of q | WCancel q -> "c" ^ idx_of q) !st.cs_writeQ) in
+    List.iter (fun (q, _) -> try inchan := int_of_string (idx_of q) :: !inchan with _ -> ()) dlv;
     let dlv = List.sort compare (List.map (fun (q, o) -> idx_of q ^ "=" ^ outcome_name o) dlv) in
-    Printf.sprintf "%s calls=%s wq=%s inf=%s sh=%s fin=%s up=%s cl=%s wt=%s dlv=%s" res
+    Printf.sprintf "%s calls=%s wq=%s inf=%s sh=%s fin=%s up=%s cl=%s wt=%s dlv=%s chan=%s" res
       (lst (fun (i, s) -> string_of_int i ^ (if s then "s" else "u")) calls)
       (lst (fun x -> x) wq) (dec_of_z !st.cs_inFlight)
       (b01 !st.cs_isShutdown) (b01 !st.cs_wantsFin) (b01 !st.cs_connUp) (b01 !st.cs_closed) (b01 !st.cs_waiting)
-      (lst (fun x -> x) dlv) in
+      (lst (fun x -> x) dlv) (lst string_of_int (List.sort compare !inchan)) in
   let outs = ref [] in
   let panicked = ref false in
   List.iter (fun op ->
@@ -66,6 +71,7 @@ let run_pc (ops : string list) : string =
             dls := (i, dl) :: !dls;
             let (s1, o) = cl_setup !st q (fail = "1") (n_of_int (i + 1)) in
             st := s1;
+            if o = None then started := i :: !started;
             Some (dump (match o with None -> "ok" | Some o -> outcome_name o) [])
         | ["m"] ->
             (match cl_move !st with
@@ -89,6 +95,24 @@ let run_pc (ops : string list) : string =
             (match cl_cancel !st q (List.assoc i !dls = "p") with
              | None -> None
              | Some (s1, found) -> st := s1; Some (dump ("found=" ^ b01 found) []))
+        | ["w"; i] ->
+            (* doWait with a cancelled context, then PutResponse: if the result is already in the channel either
+               select case may run; both leave the same state: call not pending, channel empty *)
+            let i = int_of_string i in
+            if not (List.mem i !started) || List.mem i !returned then Some "not-allowed"
+            else begin
+              let q = qid_of i in
+              let r =
+                if List.mem i !inchan then Some !st
+                else (match cl_cancel !st q (List.assoc i !dls = "p") with Some (s1, _) -> Some s1 | None -> None) in
+              match r with
+              | None -> None
+              | Some s1 ->
+                  st := s1;
+                  inchan := List.filter (fun x -> x <> i) !inchan;
+                  returned := i :: !returned;
+                  Some (dump "ret dirty=0" [])
+            end
         | ["x"; good] ->
             (match cl_disconnect !st (good = "1") expired with
              | None -> None
